@@ -10,7 +10,7 @@ import Knut.GoSem.Fmt
   `Color.State` holds both.
 * `%f` of a `float64` (with width and precision) is NOT given a meaning: `Fmt.FloatFmt` is the type of the formatting function the
   translated functions take as a parameter (the verb as written in the format string, the operands of its `*`s, the exact value).
-* `make([]T, n)`: `n` zero values; a negative length panics.
+* `make([]T, n)`: `n` zero values; a negative length panics.  `Slices`: the capacity of a slice as `Option Int` (see below).
 
 `Color.Fprintf` and `makeSlice` are compared with real Go by the stream `gosemtable` of C11 (`harness/gosem_table.go`).
 -/
@@ -57,5 +57,27 @@ end Fmt
 /-- `make([]T, n)` -/
 def makeSlice {α : Type} [GoZero α] (n : Int) : Outcome (List α) :=
   if n < 0 then .panic "runtime error: makeslice: len out of range" else .ok (List.replicate n.toNat GoZero.zero)
+
+/-! The CAPACITY of a slice, for the struct fields whose capacity the translated code observes (`cap(r.cells)` in `Row.FillEmpty`):
+`some n`, or `none` = unknown: after an `append` that did not fit, the runtime decides the capacity of the new array. -/
+namespace Slices
+def capUnknown : String := "cap of a slice that append has reallocated: its capacity is decided by the runtime, outside the reading"
+
+/-- the capacity of `make([]T, 0, n)`; a negative capacity panics -/
+def makeCap (n : Int) : Outcome (Option Int) :=
+  if n < 0 then .panic "runtime error: makeslice: cap out of range" else .ok (some n)
+
+/-- the capacity after `append` to the new length `newLen` -/
+def appendCap (cap : Option Int) (newLen : Int) : Option Int :=
+  match cap with
+  | some c => if newLen ≤ c then some c else none
+  | none => none
+
+/-- `cap(xs)` -/
+def capE (cap : Option Int) : Outcome Int :=
+  match cap with
+  | some c => .ok c
+  | none => .panic capUnknown
+end Slices
 
 end Knut.GoSem
